@@ -13,6 +13,9 @@
 (*   pend   ControlConnection.PendingChallenge as the index of the nonce (0 = none)            *)
 (*   chalid the client id named by the phase-1 message the pending challenge was issued for ("none"   *)
 (*          without one): the code does not keep it - it is what makes a phase 2 in or out of order  *)
+(*   aform  the form in which the transports of the behaviour report the peer address: "v4" | "v6" |  *)
+(*          "v6zone" (link-local with a zone) | "v4mapped" (::ffff:a.b.c.d) as *net.TCPAddr, "udp4" |  *)
+(*          "udp6zone" as *net.UDPAddr; list and ban entries name the plain address / a range over it   *)
 (*   nn     number of challenges issued on the connection so far (nonce k of c = <<c,k>>)      *)
 (*   idx    ClientRegistry.clientIDMap (by connection id; "none" = no entry)                   *)
 (*   ord    registered control connections by ControlConnection.CreatedAt (oldest first)        *)
@@ -71,6 +74,10 @@ CONSTANTS Conn,      \* sequence of connection names, accepted in this order, e.
                      \*   "deletedStillKnown" the handler still finds the record of a deleted client (a copy that is never invalidated)
                      \*   "phase2SkipsIdentityCheck"  the one-identity check (patches/C07-1) runs where an exchange starts (first connect,
                      \*                      phase 1) but not on phase-2 messages
+                     \*   "phase1BindsIdentity"  phase 1 stores the id it names on the connection and phase 2 keeps that id instead of the
+                     \*                      id whose secret verified the response
+                     \*   "zoneEscapesLists"  the handler takes the peer address in its textual form: an IPv6 peer with a zone
+                     \*                      (fe80::1%eth0) matches neither an exact nor a range entry of blacklist / ban table
                      \*   "cleanupDropsPermanent" / "cleanupDropsLiveTemp"  BruteForceProtector.cleanup deletes ban records without an
                      \*                      expiry date / temporary ban records that are still running
                      \*   "ipCleanupDropsPermanent" / "ipCleanupDropsLiveTemp"  the same for IPManager.cleanup and the blacklist
@@ -138,8 +145,9 @@ RecFail(s, c) == LET n == IF s.fails[c] < MaxFail THEN s.fails[c] + 1 ELSE MaxFa
 NextClient(s) == Client[Cardinality(s.issued) + 1]
 
 \* IPManager.IsAllowed (whitelist first, then blacklist; the in-memory lists) and BruteForceProtector.IsBanned
-PassIP(s, c) == c \in s.white \/ ("whitelistAny" \in Faults /\ s.white # {}) \/ c \notin s.black
-BanInForce(s, c) == c \in s.banned /\ ~("lazyUnbanDropsPermanent" \in Faults /\ c \in s.bperm)
+Zoned(s) == "zoneEscapesLists" \in Faults /\ s.aform \in {"v6zone", "udp6zone"}
+PassIP(s, c) == Zoned(s) \/ c \in s.white \/ ("whitelistAny" \in Faults /\ s.white # {}) \/ c \notin s.black
+BanInForce(s, c) == ~Zoned(s) /\ c \in s.banned /\ ~("lazyUnbanDropsPermanent" \in Faults /\ c \in s.bperm)
 Refused(s, c) == ~PassIP(s, c) \/ BanInForce(s, c)
 
 \* SecretKeyManager.VerifyResponse(stored secret of m.id, pending challenge of c, response): decrypt, HMAC, compare
@@ -171,7 +179,8 @@ Handler(s0, c, m) ==
   ELSE \* P2
     IF s.pend[c] = 0 THEN [s |-> RecFail(s, c), out |-> "fail", id |-> m.id]
     ELSE IF Verifies(s, c, m)
-      THEN [s |-> [s EXCEPT !.pend[c] = 0, !.chalid[c] = None, !.auth[c] = m.id, !.fails[c] = 0], out |-> "ok", id |-> m.id]
+      THEN [s |-> [s EXCEPT !.pend[c] = 0, !.chalid[c] = None, !.fails[c] = 0,
+                            !.auth[c] = IF "phase1BindsIdentity" \in Faults THEN s.chalid[c] ELSE m.id], out |-> "ok", id |-> m.id]
       ELSE [s |-> RecFail([s EXCEPT !.pend[c] = 0, !.chalid[c] = None], c), out |-> "fail", id |-> m.id]
 
 \* does handleHandshake enter its registry section after the handler returned without error?
@@ -500,6 +509,10 @@ KickEnd ==
 Delete(X) == /\ "Delete" \in Ops /\ Go /\ X \in st.issued /\ X \notin st.deleted
              /\ LET t == [st EXCEPT !.deleted = @ \cup {X}] IN st' = t /\ Record([op |-> "Delete", id |-> X], t)
              /\ UNCHANGED <<pc, proved, ctl, used, gv, dev>>
+\* the address form of the behaviour's transports, chosen before anything else happens
+Form(f) == /\ "AddrForm" \in Ops /\ Go /\ hist = <<>> /\ st.aform = "v4"
+           /\ LET t == [st EXCEPT !.aform = f] IN st' = t /\ Record([op |-> "Form", how |-> f], t)
+           /\ UNCHANGED <<pc, proved, ctl, used, gv, dev>>
 Expire(X) == /\ "Expire" \in Ops /\ Go /\ X \in st.issued /\ X \notin st.expired /\ X \notin st.deleted
              /\ LET t == [st EXCEPT !.expired = @ \cup {X}] IN st' = t /\ Record([op |-> "Expire", id |-> X], t)
              /\ UNCHANGED <<pc, proved, ctl, used, gv, dev>>
@@ -510,7 +523,7 @@ Bind(X) == /\ "Bind" \in Ops /\ Go /\ X \in st.issued /\ X \notin st.bound /\ X 
 Init ==
   /\ st = [acc |-> IF PreAccept THEN ConnS ELSE {}, sess |-> IF PreAccept THEN ConnS ELSE {},
            tcl |-> {}, reg |-> {},
-           auth |-> [c \in ConnS |-> None], pend |-> [c \in ConnS |-> 0], chalid |-> [c \in ConnS |-> None], nn |-> [c \in ConnS |-> 0],
+           auth |-> [c \in ConnS |-> None], aform |-> "v4", pend |-> [c \in ConnS |-> 0], chalid |-> [c \in ConnS |-> None], nn |-> [c \in ConnS |-> 0],
            idx |-> [X \in ClientS |-> None], issued |-> {}, expired |-> {}, bound |-> {}, banned |-> {}, black |-> {}, blackP |-> {},
            bperm |-> {}, blapsed |-> {}, banP |-> {}, bfgen |-> 0,
            corrupt |-> {}, blank |-> {}, rekeyed |-> {}, deleted |-> {}, bhow |-> [c \in ConnS |-> None], white |-> {}, whiteP |-> {}, ipgen |-> 0,
@@ -535,7 +548,7 @@ Next == \/ Accept
                             \/ Unban(c)
         \/ SReap
         \/ \E X \in ClientS : Expire(X) \/ Bind(X) \/ Rekey(X) \/ Delete(X) \/ (\E how \in {"rotated", "damaged", "notb64", "short", "blank"} : Corrupt(X, how)) \/ \E n \in ConnS \cup {None} : (Kick(X, n) \/ KickBegin(X, n))
-        \/ KickEnd \/ Reload \/ Cleanup \/ Cloud("down") \/ Cloud("up")
+        \/ KickEnd \/ Reload \/ Cleanup \/ (\E f \in {"v6", "v6zone", "v4mapped", "udp4", "udp6zone"} : Form(f)) \/ Cloud("down") \/ Cloud("up")
         \/ \E S \in SUBSET ConnS : Tick(S)
 Spec == Init /\ [][Next]_vars
 
